@@ -33,7 +33,8 @@ def atoms_arith():
     l = L()
     return [lambda: l.Symbol("x1", l.DataType.REAL), lambda: l.Symbol("x2", l.DataType.INT),
             lambda: l.LiteralInt(3), lambda: l.LiteralInt(-2), lambda: l.LiteralFloat(0.5),
-            lambda: l.LiteralFloat(-2.0), lambda: l.LiteralFloat(1e-05)]
+            lambda: l.LiteralFloat(-2.0), lambda: l.LiteralFloat(1e-05),
+            lambda: l.LiteralFloat(2j), lambda: l.LiteralFloat(-0.5 + 0.25j), lambda: l.LiteralFloat(complex(0.0, -1.5))]
 
 
 def arith_builders(sub_a, sub_c):
@@ -152,6 +153,8 @@ def _conv(e):
     if t is l.LiteralInt:
         return ("ELitI", int(e.value))
     if t is l.LiteralFloat:
+        if isinstance(e.value, complex):
+            return ("ELitC",) + ffx.dyadic(e.value.real) + ffx.dyadic(e.value.imag)
         return ("ELitF",) + ffx.dyadic(float(e.value))
     if t is l.Neg:
         return ("ENeg", _conv(e.arg))
@@ -178,6 +181,9 @@ def canon_py(e):
         return ("ENeg", ("ELitI", -e[1])) if e[1] < 0 else e
     if k == "ELitF":
         return ("ENeg", ("ELitF", -e[1], e[2])) if e[1] < 0 else e
+    if k == "ELitC":
+        return ("EBin", "OAdd", canon_py(("ELitF", e[1], e[2])),
+                ("EBin", "OMul", ("ESym", 7), canon_py(("ELitF", e[3], e[4]))))
     if k == "ESym":
         return e
     if k == "EAcc":
@@ -385,7 +391,7 @@ def run(v, tier, seed, g):
         # model tokens: function names spelled as in the C table
         model = " ".join(("f:" + fwd.get(t[2:], t[2:])) if t.startswith("f:") else t for t in rendered[i].split(" "))
         try:
-            real = cparse.render_tokens(cparse.lex(text), inv_table)
+            real = cparse.render_tokens(cparse.lex(text), inv_table).replace(" I ", " x7 ")
         except ValueError as e:
             real = f"<lex error {e}>"
         inside = wf and noneg
@@ -396,7 +402,7 @@ def run(v, tier, seed, g):
             from pycparser import c_parser
             ast = c_parser.CParser().parse("void f(void){ r = " + text + "; }")
             got = cparse.c_expr(ast.ext[0].body.block_items[0].rvalue)
-            want = map_calls(named(canon_py(tup), lambda n: f"x{n}"), fwd)
+            want = map_calls(named(canon_py(tup), lambda n: "I" if n == 7 else f"x{n}"), fwd)
             tree_ok = got == want
         except Exception as e:  # noqa: BLE001
             tree_ok = False
